@@ -135,6 +135,11 @@ def _multi(draw, max_rows):
             kind = draw(st.sampled_from(KINDS))
             cols.append({"name": nm, "kind": kind, "vals": draw(gen.values(kind, on))})
         others.append({"n": on, "cols": cols, "norid": True})
+    if op == "update" and n >= 2 and draw(st.integers(0, 5)) == 0:
+        # every column of the receiver (it carries no row id here) is replaced by a one-row frame
+        base = dict(base, norid=True)
+        others = [{"n": 1, "norid": True, "cols": [{"name": c["name"], "kind": c["kind"],
+                                                     "vals": draw(gen.values(c["kind"], 1))} for c in base["cols"]]}]
     return {"op": op, "frame": base, "others": others}
 
 
